@@ -331,7 +331,7 @@ def real_abi_type(t):
 IMPORTS = "From Verif Require Import C06.Abi.\n"
 
 
-def coq_hex_batch(exprs, name, shard=60, timeout=300):
+def coq_hex_batch(exprs, name, shard=60, timeout=900):
     """exprs: Coq terms of type `list Z` (bytes) -> python bytes, evaluated by vm_compute in coqc.
     Several byte lists can be packed into one expr by the caller using hex_join."""
     outs = coqrun.eval_cases(IMPORTS, [f"hex_of_bytes ({e})" for e in exprs], name, shard=shard, timeout=timeout)
@@ -344,7 +344,7 @@ def coq_hex_batch(exprs, name, shard=60, timeout=300):
     return res
 
 
-def coq_strings(exprs, name, shard=60, timeout=300, imports=IMPORTS):
+def coq_strings(exprs, name, shard=60, timeout=900, imports=IMPORTS):
     outs = coqrun.eval_cases(imports, exprs, name, shard=shard, timeout=timeout)
     res = []
     for o in outs:
